@@ -121,8 +121,11 @@ else:
     def _get_non_none_type(t: Any) -> Any:
         """Extract the non-None type from Optional[T]."""
         if _is_optional(t):
-            args = get_args(t)
-            return next(arg for arg in args if arg is not type(None))
+            args = [arg for arg in get_args(t) if arg is not type(None)]
+            if len(args) == 1:
+                return args[0]
+            # Optional[Union[A, B]] is Union[A, B, None]: keep every member
+            return Union[tuple(args)]  # type: ignore[return-value]
         return t
 
     def _resolve_type_alias(annotation, field_name=None, class_module=None):
